@@ -167,8 +167,10 @@ func (e *Explorer) explore(prefix []int, usedAtPrefixEnd [nKinds]int) bool {
 			}
 			if e.Prune && p.Key != 0 {
 				vk := vkey{key: p.Key, alt: alt}
-				if e.bounded() {
-					vk.used = used
+				for k := range vk.used {
+					if e.Budget[k] >= 0 { // a state reached with less budget used has more futures
+						vk.used[k] = used[k]
+					}
 				}
 				if _, seen := e.visited[vk]; seen {
 					e.Pruned++
@@ -191,14 +193,6 @@ func (e *Explorer) explore(prefix []int, usedAtPrefixEnd [nKinds]int) bool {
 	return true
 }
 
-func (e *Explorer) bounded() bool {
-	for _, b := range e.Budget {
-		if b >= 0 {
-			return true
-		}
-	}
-	return false
-}
 
 // Hash helpers ------------------------------------------------------------------------------
 
